@@ -656,6 +656,9 @@ static void buildSchema(SchemaCtx& sc, vh::Rng& rng, bool rich) {
   sc.add("F1", CstType::function, "[\xCE\xB1\xE2\x88\x88\xE2\x84\xAC(R1), \xCE\xB2\xE2\x88\x88R1] \xCE\xB1\\{\xCE\xB2}");   // [α∈ℬ(R1), β∈R1] α\{β}
   sc.add("F2", CstType::function, "[\xCF\x83\xE2\x88\x88\xE2\x84\xAC(R1\xC3\x97R2)] Pr1(\xCF\x83)");                          // [σ∈ℬ(R1×R2)] Pr1(σ)
   sc.add("F6", CstType::function, "[\xCE\xB1\xE2\x88\x88\xE2\x84\xAC(R1), \xCE\xB2\xE2\x88\x88\xE2\x84\xAC(R1)] \xCE\xB1\xE2\x88\xAA\xCE\xB2");       // [α∈ℬ(R1), β∈ℬ(R1)] α∪β
+  // one radical in two parameters, the later one nested deeper (seeded change C02-5: an any-typed later argument
+  // overwrote the binding made by an informative earlier one)
+  sc.add("F8", CstType::function, "[\xCE\xB1\xE2\x88\x88\xE2\x84\xAC(R1), \xCE\xB2\xE2\x88\x88\xE2\x84\xAC\xE2\x84\xAC(R1)] \xCE\xB1");         // [α∈ℬ(R1), β∈ℬℬ(R1)] α
   sc.add("P1", CstType::predicate, "[a\xE2\x88\x88X1, b\xE2\x88\x88\xE2\x84\xAC(X1)] a\xE2\x88\x88" "b");                   // [a∈X1, b∈ℬ(X1)] a∈b
   sc.refresh();
   const int nF = rich ? rng.range(1, 3) : 0;
@@ -687,6 +690,7 @@ static void buildFake(FakeEnv& env, CtxView& cv) {
   put("F1", TC(TB("R1"))); env.data["F1"].args = rslang::FunctionArguments{ rslang::TypedID{ "a", TC(TB("R1")) }, rslang::TypedID{ "b", TB("R1") } };
   put("F2", TB("R2")); env.data["F2"].args = rslang::FunctionArguments{ rslang::TypedID{ "a", TC(TT({ TB("R1"), TB("R2") })) }, rslang::TypedID{ "b", TB("R1") } };
   put("F6", TC(TB("R1"))); env.data["F6"].args = rslang::FunctionArguments{ rslang::TypedID{ "a", TC(TB("R1")) }, rslang::TypedID{ "b", TC(TB("R1")) } };
+  put("F8", TC(TB("R1"))); env.data["F8"].args = rslang::FunctionArguments{ rslang::TypedID{ "a", TC(TB("R1")) }, rslang::TypedID{ "b", TC(TC(TB("R1"))) } };
   put("F3", TC(TB("C1"))); env.data["F3"].args = rslang::FunctionArguments{ rslang::TypedID{ "a", TB("C1") } };
   put("P1", LogicT{}); env.data["P1"].args = rslang::FunctionArguments{ rslang::TypedID{ "a", TB("X1") }, rslang::TypedID{ "b", TC(TB("X1")) } };
   env.data["F4"].args = rslang::FunctionArguments{ rslang::TypedID{ "a", TB("X1") } };   // arguments but no type
@@ -786,6 +790,8 @@ static const Fixed CORPUS[] = {
   // recursion_needs_bound_counterexample: typable by the rules, rejected by ViRecursion); one component less is accepted
   { "R{a:=(1,1,1,1,1,1) | (S4, pr1(a), pr2(a), pr3(a), pr4(a), pr5(a))}", "K12:recursion-bound", true },
   { "R{a:=(1,1,1,1,1) | (S4, pr1(a), pr2(a), pr3(a), pr4(a))}", "fixed", false },
+  { "F8[X1, \xE2\x88\x85]", "fixed", false }, { "F8[\xE2\x88\x85, \xE2\x84\xAC(X1)]", "fixed", false }, { "Pr1(F8[S1, \xE2\x88\x85])", "fixed", false }, { "red(F8[X1, \xE2\x88\x85])", "fixed", false },
+  { "F8[X1, {\xE2\x88\x85}]", "fixed", false }, { "F8[X1, \xE2\x84\xAC(X1)]", "fixed", false }, { "F8[X1, \xE2\x84\xAC(X2)]", "fixed", false }, { "F8[\xE2\x88\x85, \xE2\x88\x85]", "fixed", false },
   // completeness corners of filters and template calls (check_complete_partial2)
   { "Fi1,2[S1](S1)", "fixed", false }, { "Fi1[X1](\xE2\x88\x85)", "fixed", false }, { "Fi1[S1](S1)", "fixed", false },
   { "F1[X1\xC3\x97X1, debool(S1)]", "fixed", false }, { "F1[X1, S4]", "fixed", false },
